@@ -6461,8 +6461,11 @@ impl Nudge {
         let exact = (truncated.get() as f64)
             + (numer / denom) * (sign.get() as f64) * (increment.get() as f64);
         let rounded = mode.round_float(exact, increment);
+        // N.B. `f64::signum` never returns zero (it maps `0.0` to `1.0`), so
+        // an exact result needs to be ruled out explicitly.
+        let diff = (rounded.get() as f64) - exact;
         let grew_big_unit =
-            ((rounded.get() as f64) - exact).signum() == (sign.get() as f64);
+            diff != 0.0 && diff.signum() == (sign.get() as f64);
 
         let span = span
             .try_units_ranged(smallest, rounded.rinto())
